@@ -425,7 +425,7 @@ def run_session(ctx, Session, hostkey, steps, stats, control=True):
                              observed={"sent": sent, "callbacks": [ev[2] for ev in apps], "channels": chans,
                                        "accept_queue": queue})
             # ---- canonical form for the model comparison
-            drop_sends = is_conn and (pre_authed or 83 <= ptype <= 89)
+            drop_sends = is_conn and (pre_authed or (83 <= ptype <= 89 and alive))
             if not drop_sends:
                 for m in sent:
                     canon += [-10, 0] + list(m)
@@ -441,7 +441,7 @@ def run_session(ctx, Session, hostkey, steps, stats, control=True):
                 ch = sess.ts._channels.get(pk[2])
                 if ch is not None and ch.recv_ready():
                     canon += [-19, 94, pk[2]]
-            if is_conn and 83 <= ptype <= 89:
+            if is_conn and 83 <= ptype <= 89 and (alive or isinstance(exc, KeyError)):
                 stats.setdefault("unhandled", set()).add("alive+UNIMPLEMENTED" if alive else "dead:" + type(exc).__name__)
                 alive_c = 1          # C12's matter: model says "unhandled", whatever the loop then does
                 dead = not alive
